@@ -456,6 +456,50 @@ func (g *c04Gen) batches() [][]string {
 	}
 	chunk("window", qs, 80)
 
+	// windows whose height, count or height+count-1 lies beyond 31 / 32 / 63 bits (never sampled away):
+	// a store that narrows the bounds (int32) or an arithmetic that wraps shows up here
+	qs = nil
+	bigs := []string{"2147483647", "2147483648", "4294967295", "4294967296", "4294967297", "9223372036854775807",
+		"9223372036854775808", "-2147483648", "-2147483649", "-4294967296", "-4294967295", "-9223372036854775808", "-9223372036854775809"}
+	smallH := []int64{0, 1, 2, g.maxH}
+	for _, k := range smallH {
+		bigs = append(bigs, strconv.FormatInt(4294967296+k, 10), strconv.FormatInt(-4294967296+k, 10),
+			strconv.FormatInt(2147483648+k, 10), strconv.FormatInt(8589934592+k, 10))
+	}
+	seenQ := map[string]bool{}
+	add := func(q string) {
+		if !seenQ[q] {
+			seenQ[q] = true
+			qs = append(qs, q)
+		}
+	}
+	for _, b := range bigs {
+		for _, cn := range []string{"-", "1", "2", "3", "-1"} {
+			add("R=" + b + "/" + cn) // big height, small count
+		}
+		for _, k := range smallH {
+			add(fmt.Sprintf("R=%d/%s", k, b)) // small height, big count
+		}
+		add("R=-1/" + b)
+		add("R=" + b + "/" + b)
+	}
+	// ends that land exactly on small heights after a 2^32 / 2^64 wrap, and sums around the 64-bit limits
+	for _, k := range smallH {
+		add(fmt.Sprintf("R=%d/%d", 4294967296+k, -4294967296+2))
+		add(fmt.Sprintf("R=%d/%d", -4294967296+k, 4294967296+2))
+		add(fmt.Sprintf("R=%d/9223372036854775807", k+1))
+		add(fmt.Sprintf("R=%d/9223372036854775806", k+1))
+		add(fmt.Sprintf("R=%d/%d", k, 9223372036854775807-k))
+		add(fmt.Sprintf("R=-9223372036854775808/%d", -k-1))
+		add(fmt.Sprintf("R=9223372036854775807/%d", k+2))
+	}
+	add("R=-9223372036854775808/9223372036854775807")
+	add("R=-9223372036854775808/-9223372036854775808")
+	add("R=01/2")
+	add("R=-0/2")
+	add("R=1_0/2")
+	chunk("window-big", qs, 80)
+
 	// ancestors: all ordered pairs (bounded)
 	qs = nil
 	type pr struct{ a, b int }
